@@ -21,13 +21,20 @@ def main():
     sdir = os.path.join(HERE, 'seeded')
     ids = args or sorted(d for d in os.listdir(sdir) if os.path.exists(os.path.join(sdir, d, 'patch.diff')))
     results = []
+    # one snapshot of /repo's working tree at start, so that later changes to /repo
+    # (another seeded change being tried there) cannot leak into a mutant
+    base = tempfile.mkdtemp(prefix='verif-mutant-base-')
+    shutil.copytree(os.environ.get('VERIF_REPO', '/repo'), os.path.join(base, 'repo'),
+                    ignore=shutil.ignore_patterns('.git', '__pycache__', '*.pyc', 'doc', 'demo'))
+    import atexit
+    atexit.register(shutil.rmtree, base, True)
     for mid in ids:
         meta = json.load(open(os.path.join(sdir, mid, 'meta.json')))
         prop = meta['property']
         scratch = tempfile.mkdtemp(prefix='verif-mutant-%s-' % mid)
         try:
             dst = os.path.join(scratch, 'repo')
-            shutil.copytree('/repo', dst, ignore=shutil.ignore_patterns('.git', '__pycache__', '*.pyc', 'doc', 'demo'))
+            shutil.copytree(os.path.join(base, 'repo'), dst)
             p = subprocess.run(['patch', '-p1', '-s', '-i', os.path.join(sdir, mid, 'patch.diff')], cwd=dst,
                                stdout=subprocess.PIPE, stderr=subprocess.STDOUT, text=True)
             if p.returncode != 0:
